@@ -493,6 +493,26 @@ def make_border_machine(ctx, with_merges):
                 length = 1  # strokes running through a merged region are left to single-cell calls (the API checks the start cell only)
             self.step("stroke", row=row, col=col, side=side, length=length, width=width, rgb=rgb, style=style)
 
+        @rule(data=st.data())
+        def merge_later(self, data):
+            """Merge a further rectangle after strokes were drawn: edges inside it disappear, every other known border stays."""
+            self.ensure(data)
+            if self.dead or not with_merges or len(self.ex.merges) >= 3:
+                return
+            ex = self.ex
+            r0 = data.draw(st.integers(0, ex.rows - 1))
+            c0 = data.draw(st.integers(0, ex.cols - 1))
+            r1 = data.draw(st.integers(r0, min(ex.rows - 1, r0 + 2)))
+            c1 = data.draw(st.integers(c0, min(ex.cols - 1, c0 + 2)))
+            if (r0, c0) == (r1, c1):
+                return
+            for a0, b0, a1, b1 in ex.merges:
+                if not (r1 < a0 or a1 < r0 or c1 < b0 or b1 < c0):
+                    return
+            if any(op["op"] == "stroke" for op in ex.log):
+                ex.flags.add("merge_after_strokes")
+            self.step("merge", rect=[r0, c0, r1, c1])
+
         @rule(data=st.data(), v=st.sampled_from(["x", 3, 2.5, True]))
         def write(self, data, v):
             self.ensure(data)
